@@ -73,14 +73,20 @@ def cases(draw, depth):
         return {"mode": mode, "sql": draw(sqlcore.statement(depth))["sql"], "read": draw(st.sampled_from(names)), "write": draw(st.sampled_from(names)), "max": draw(st.sampled_from((1, 2, 3, 10)))}
     n = draw(st.integers(1, 3))
     stmts = []
+    delegating = draw(st.integers(0, 11)) == 0
     for _ in range(n):
-        s = draw(sqlcore.statement(depth))["sql"]
+        if delegating:
+            # a dialect that hands statements to OTHER dialects' parsers (Athena: DDL to Hive, queries to Trino) has to pass the
+            # error level on to each of them
+            s = draw(st.sampled_from(("DROP TABLE t", "ALTER TABLE t ADD COLUMNS (c INT)", "CREATE EXTERNAL TABLE t (a INT, b STRING) LOCATION 's3://x'", "CREATE TABLE t (a INT)", "SELECT a FROM t WHERE b = 1", "CREATE TABLE t AS SELECT a FROM u", "DESCRIBE t", "INSERT INTO t SELECT a FROM u")))
+        else:
+            s = draw(sqlcore.statement(depth))["sql"]
         if draw(st.integers(0, 2)) > 0:
             muts = [{"op": draw(st.sampled_from(("delete", "insert", "swap", "dup", "replace", "truncate"))), "i": draw(st.integers(0, 200)), "j": draw(st.integers(0, 200)), "tok": draw(st.sampled_from(PUNCT + ["SELECT", "FROM", "WHERE", "AND", "AS", "ON", "BY", "CASE", "END"]))} for _ in range(draw(st.integers(1, 2)))]
         else:
             muts = []
         stmts.append({"sql": s, "muts": muts})
-    return {"mode": mode, "stmts": stmts, "dialect": draw(st.sampled_from(names)), "max": draw(st.sampled_from((1, 2, 3, 10)))}
+    return {"mode": mode, "stmts": stmts, "dialect": "athena" if delegating else draw(st.sampled_from(names)), "max": draw(st.sampled_from((1, 2, 3, 10)))}
 
 
 def check_parse(case, res=None):
